@@ -80,9 +80,18 @@ func InputFromPaths(paths []string, prefix string, versionsMap map[string]ast.Re
 
 			parserOptions := parse.ParserOptions()
 
+			// versioned directories are relative to prefix: a path given relative to
+			// the working directory must be made absolute before prefix can be trimmed
+			relPath := path
+			if prefix != "" && len(versionsMap) > 0 && !filepath.IsAbs(relPath) {
+				if abs, err := filepath.Abs(relPath); err == nil {
+					relPath = abs
+				}
+			}
+
 			parserOptions.RegoVersion = RegoVersionFromVersionsMap(
 				versionsMap,
-				strings.TrimPrefix(path, prefix),
+				strings.TrimPrefix(relPath, prefix),
 				ast.RegoUndefined,
 			)
 
